@@ -1,6 +1,6 @@
 (* C18 — property theorems (statements only; proofs live in Proofs*.v). *)
 From Coq Require Import List ZArith NArith QArith Bool.
-Require Import QV.C18.Model QV.C18.Spec QV.C18.Corr QV.C18.Proofs QV.C18.Proofs_frame_awg QV.C18.Proofs_frame_dac QV.C18.Proofs_obs QV.C18.Proofs_dev.
+Require Import QV.C18.Model QV.C18.Spec QV.C18.Corr QV.C18.Proofs QV.C18.Proofs_frame_awg QV.C18.Proofs_frame_dac QV.C18.Proofs_obs QV.C18.Proofs_dev QV.C18.Proofs_perdev QV.C18.Proofs_perdev_dac QV.C18.Proofs_post.
 Import ListNotations.
 
 (* Generator side of the routing invariant, for arbitrary finite histories of operations (calls that raise included)
@@ -283,3 +283,94 @@ Theorem C18_clean_at_all_generators : forall dm st n,
   clean_ok dm st n <-> forall a, clean_at dm st n a.
 Proof. exact clean_ok_at. Qed.
 Print Assumptions C18_clean_at_all_generators.
+
+(* ================================================================================================================ *)
+(* Round 4 *)
+
+(* status per (name, generator), threaded through EVERY history (raising calls included): `prun` lists the dirty pairs
+   (n, a) = a channel id used by name n was re-wired ON generator a since the last (re-)registration of n.  For every
+   name that is not lost and every generator at which it is not dirty the three routing clauses of the name hold at
+   that generator (held => registered, uses a, channel ids / transformations at the wired outputs of a; registered and
+   uses a => held; the record names a iff the program uses a) - even when the name is "covered" on the generator side
+   because its wiring changed on OTHER generators. *)
+Theorem C18_clean_at_histories : forall dm h n a,
+  is_lost (t_awg (trun dm tinit h)) n = false ->
+  memNN (n, a) (prun dm init_state [] h) = false ->
+  clean_at dm (t_st (trun dm tinit h)) n a.
+Proof. exact clean_at_histories. Qed.
+Print Assumptions C18_clean_at_histories.
+
+(* non-vacuity: name 0 uses channel id 1 on generators 0 and 1; the output on generator 1 is moved: the name is covered,
+   the pair (0, generator 0) is not dirty, (0, generator 1) is *)
+Theorem C18_per_device_example :
+  is_cov (t_awg (trun pd_dims tinit pd_history)) 0%N = true
+  /\ is_lost (t_awg (trun pd_dims tinit pd_history)) 0%N = false
+  /\ has_key 0%N (regs (t_st (trun pd_dims tinit pd_history))) = true
+  /\ memNN (0%N, 0%N) (prun pd_dims init_state [] pd_history) = false
+  /\ memNN (0%N, 1%N) (prun pd_dims init_state [] pd_history) = true.
+Proof. exact perdev_example. Qed.
+Print Assumptions C18_per_device_example.
+
+(* the same per (name, acquisition device): `prun_dac` lists the pairs (n, d) = a measurement name used by n was re-wired
+   ON device d (another set of (device, mask name) pairs on d) since the last (re-)registration of n.  Not lost and not
+   dirty at d => the three routing clauses hold at d (held windows => registered, uses d, exactly the wired masks of d
+   with the program's own windows; registered and uses d => held; the record names d iff the program uses d) *)
+Theorem C18_dclean_at_histories : forall dm h n d,
+  is_lost (t_dac (trun dm tinit h)) n = false ->
+  memNN (n, d) (prun_dac dm init_state [] h) = false ->
+  dclean_at (t_st (trun dm tinit h)) n d.
+Proof. exact dclean_at_histories. Qed.
+Print Assumptions C18_dclean_at_histories.
+
+Theorem C18_per_device_example_dac :
+  is_cov (t_dac (trun pdd_dims tinit pdd_history)) 0%N = true
+  /\ is_lost (t_dac (trun pdd_dims tinit pdd_history)) 0%N = false
+  /\ has_key 0%N (regs (t_st (trun pdd_dims tinit pdd_history))) = true
+  /\ has_key 0%N (d_wins (dac_of (t_st (trun pdd_dims tinit pdd_history)) 0%N)) = true
+  /\ has_key 0%N (d_wins (dac_of (t_st (trun pdd_dims tinit pdd_history)) 1%N)) = true
+  /\ memNN (0%N, 0%N) (prun_dac pdd_dims init_state [] pdd_history) = false
+  /\ memNN (0%N, 1%N) (prun_dac pdd_dims init_state [] pdd_history) = true.
+Proof. exact perdev_dac_example. Qed.
+Print Assumptions C18_per_device_example_dac.
+
+(* per-device clauses are the per-name clauses read device by device *)
+Theorem C18_dclean_at_all_devices : forall st n, dclean_ok st n <-> forall d, dclean_at st n d.
+Proof. exact dclean_ok_at. Qed.
+Print Assumptions C18_dclean_at_all_devices.
+
+(* the post-condition clauses of the observation-level framed check (Corr.fpost_ok: remove / clear / arm / run /
+   update_parameters by status, register: the record is the program just given, other records untouched; Corr.logs_ok:
+   only run_program calls a callback, only update_parameters hands out parameters) accept the model's own views for
+   every normally returning call after EVERY history of well-formed operations (op_wf: the measurement mapping of a
+   program has distinct keys) *)
+Theorem C18_fpost_accepts_model : forall dm h na nd o e0,
+  forallb op_wf h = true -> op_wf o = true ->
+  let t := trun dm tinit h in
+  snd (step dm (t_st t) o) = None ->
+  (forall n r, lookup n (regs (fst (step dm (t_st t) o))) = Some r -> forall a, In a (r_awgs r) -> (N.to_nat a < na)%nat) ->
+  fpost_ok o (track_awg dm (t_st t) o (t_awg t)) (track_dac dm (t_st t) o (t_dac t))
+           (view na nd e0 (t_st t)) (view na nd None (fst (step dm (t_st t) o))) = true
+  /\ logs_ok o (view na nd e0 (t_st t)) (view na nd None (fst (step dm (t_st t) o))) = true.
+Proof. intros dm h na nd o e0 Hw Ho t He Hr. exact (fpost_model dm h na nd Hw o e0 Ho He Hr). Qed.
+Print Assumptions C18_fpost_accepts_model.
+
+(* ... hence Corr.check_framed AS A WHOLE (status tracking, framed invariant, post-conditions, call logs; it keeps
+   speaking after raising calls) accepts the model's own trace of every history of well-formed operations on a bench
+   that contains every recorded device: a VIOLATION verdict of the framed check on the implementation's observations
+   is always a disagreement with a proved statement about the model, never an artefact of the boolean check *)
+Theorem C18_check_framed_accepts_model : forall dl nd h,
+  forallb op_wf h = true ->
+  bench_ok (dims_of dl) (length dl) nd init_state h = true ->
+  check_framed (CHist dl nd (model_steps (dims_of dl) (length dl) nd init_state h)) = true.
+Proof. exact check_framed_accepts_model. Qed.
+Print Assumptions C18_check_framed_accepts_model.
+
+(* non-vacuity: both hypotheses hold for a history with a covered name, update re-registration, arm, run,
+   update_parameters, remove and clear *)
+Theorem C18_check_framed_example :
+  forallb op_wf post_example_history = true
+  /\ bench_ok (dims_of post_example_dl) 2 2 init_state post_example_history = true
+  /\ is_cov (t_awg (trun (dims_of post_example_dl) tinit restore_history)) 0%N = true
+  /\ check_framed (CHist post_example_dl 2 (model_steps (dims_of post_example_dl) 2 2 init_state post_example_history)) = true.
+Proof. exact post_example. Qed.
+Print Assumptions C18_check_framed_example.
